@@ -95,6 +95,17 @@ CHECKS = {
             "report; plus identity-on-connect, single-use guard and watchdog event conversion.",
             "Trusted: the reference tree in vmc/props/c16.py (contract as documented by test_provider.py); asynchronous inotify "
             "delivery and networked providers are out of reach offline.", "5/C16"),
+    "C17": ("seqx", TECH_E1 + " with explicit time-advance actions (depth-bounded)",
+            "Under a virtual clock that moves only through explicit tick actions and the engine's own sleeps, every order of user "
+            "operation, intake step, sync step and ticks up to depth 7 (9 thorough) is executed for two ageing values and five "
+            "prioritise functions; at every pick the entry handed to the sync routine must be eligible and minimal by (priority, "
+            "age), and every engine write must come at least the ageing interval after the last notification for that object "
+            "unless its priority is negative; plus a starvation scenario.", NOTE_E1, "5/C17"),
+    "C20": ("seqx", TECH_E1,
+            "SmartCloudSync with application calls (request, un-request, list) as explorer actions next to user operations and "
+            "engine steps, every interleaving: no local file that is not local-origin, requested or predicate-matched after any "
+            "action; listing flags; at quiet states folders mirrored, local creations uploaded, requested files byte-equal, "
+            "un-request keeps the remote copy with the newest bytes.", NOTE_E1, "5/C20"),
     "C19": ("apix", TECH_E2,
             "Every call sequence up to depth 3 (4 in thorough) over the cache API on colliding paths and ids, for both case "
             "modes, is executed on the real HierarchicalCache; structural invariants (acyclic, parent links, id map == reachable "
